@@ -15,10 +15,6 @@ Lemma tunnelClientStream_cancelStream_shape : skel_tunnelClientStream_cancelStre
   ["call finishStream"; "call receiver.cancel"; "go func"].
 Proof. reflexivity. Qed.
 
-Lemma tunnelClientStream_acceptServerFrame_shape : skel_tunnelClientStream_acceptServerFrame =
-  ["call finishStream"; "call metaMu.Lock"; "defer call metaMu.Unlock"; "set gotHeaders"; "set headers"; "close gotHeadersSignal"; "call finishStream"; "call sender.updateWindow"; "call finishStream"; "call receiver.accept"; "call finishStream"].
-Proof. reflexivity. Qed.
-
 Lemma tunnelServerStream_finishStream_shape : skel_tunnelServerStream_finishStream =
   ["call finishErr.CompareAndSwap"; "call finishErr.Load"; "call cancel"; "call svr.removeStream"; "call halfClose"; "call writeMu.Lock"; "defer call writeMu.Unlock"; "set sentHeaders"; "set headers"; "go func"; "set sentHeaders"; "set headers"; "set closed"; "set trailers"].
 Proof. reflexivity. Qed.
